@@ -185,6 +185,26 @@ def few_rows(ctx):
                                          fname, n, order, method, i, float(v[i]), float(vs), float(v2[0])),
                                      {'f': fname, 'n': n, 'order': order, 'method': method, 'x': x.tolist(), 'element': i,
                                       'how': 'd = nd.Derivative(f, n=n, method=method, order=order); d(x)[i] vs d(x[i]) vs d(np.array([x[i], x[(i+7) % 60]]))[0], compared with float.hex'})
+    # a boundary NUMBER of steps (rule length + 1, + 2, + 3): with exactly two extrapolated rows the Richardson error estimates (not dea3's)
+    # decide the selection; neighbours of very different magnitude must not enter an element's tolerances
+    quintic = lambda x: x * x * x * x * x + x * x      # noqa  (multiplications only: identical bits for scalars and arrays)
+    xs = np.array([0.75, 1.0e3, 0.5, 40.0, 1.0e6, 2.0])
+    for method, n, order in (('central', 1, 2), ('forward', 1, 2), ('backward', 1, 2), ('forward', 2, 2), ('central', 3, 4), ('forward', 1, 4), ('central', 2, 2)):
+        for num_steps in range(2, 10):
+            d = nd.Derivative(quintic, n=n, method=method, order=order, num_steps=num_steps, full_output=True)
+            try:
+                v, info = d(xs)
+            except Exception:   # noqa  (too few steps for the rule: C11)
+                continue
+            for i in range(xs.size):
+                vs, infos = d(float(xs[i]))
+                ctx.count(1, ('boundary-steps', method, n))
+                if float(vs).hex() != float(v[i]).hex() or float(np.ravel(infos.error_estimate)[0]).hex() != float(np.ravel(info.error_estimate)[i]).hex():
+                    return ctx.violation('scalar-boundary-steps:%s' % method,
+                                         'Derivative(x**5 + x**2, n=%d, order=%d, method=%r, num_steps=%d): element %d (x = %r) of the array call is %r +- %r, alone it is %r +- %r' % (
+                                             n, order, method, num_steps, i, float(xs[i]), float(v[i]), float(np.ravel(info.error_estimate)[i]), float(vs), float(np.ravel(infos.error_estimate)[0])),
+                                         {'n': n, 'order': order, 'method': method, 'num_steps': num_steps, 'x': xs.tolist(), 'element': i,
+                                          'how': 'd = nd.Derivative(lambda x: x*x*x*x*x + x*x, n=n, method=method, order=order, num_steps=num_steps, full_output=True); d(x)[0][i] vs d(x[i])[0], float.hex'})
     return False
 
 
